@@ -905,3 +905,107 @@ Proof.
   pose proof (Ref_valid n c0 c' Hi R (proj1 G)) as V.
   split; [apply G|]. split; [exact L|]. unfold ssa_path_valid. rewrite V. unfold keys. now rewrite map_length, L.
 Qed.
+
+(* ------------------------------------------------------------------ *)
+(* optimize_optimal: replaying the DP's tree of each component            *)
+Definition tids (wh : list nat) (t : tree) : list nat := map (fun p => nth p wh 0) (leaves t).
+
+Lemma apply_tree_Ref wh : forall t c, Ref c (fst (cp_apply_tree wh t c)).
+Proof.
+  induction t as [p|l IHl r IHr]; intros c; cbn [cp_apply_tree]; [apply Ref_refl|].
+  destruct (cp_apply_tree wh l c) as [c1 i] eqn:E1. destruct (cp_apply_tree wh r c1) as [c2 j] eqn:E2.
+  pose proof (IHl c) as R1. rewrite E1 in R1. pose proof (IHr c1) as R2. rewrite E2 in R2. cbn [fst] in *.
+  eapply Ref_trans; [exact R1|]. eapply Ref_trans; [exact R2|apply contract_nodes_Ref].
+Qed.
+
+Lemma apply_tree_good wh : forall t c, Good c -> (forall x, In x (tids wh t) -> In x (keys c)) -> NoDup (tids wh t) ->
+  let r := cp_apply_tree wh t c in
+  Good (fst r) /\ In (snd r) (keys (fst r)) /\ (In (snd r) (tids wh t) \/ cp_ssa c <= snd r) /\
+  cp_ssa c <= cp_ssa (fst r) /\
+  (forall x, In x (keys c) -> ~ In x (tids wh t) -> In x (keys (fst r))).
+Proof.
+  induction t as [p|l IHl r IHr]; intros c G Hin ND.
+  - cbn [cp_apply_tree fst snd]. unfold tids in *. cbn [leaves map] in *.
+    split; [assumption|]. split; [apply Hin; now left|]. split; [left; now left|]. split; [lia|auto].
+  - unfold tids in *. cbn [leaves] in *. rewrite map_app in *. fold (tids wh l) in *. fold (tids wh r) in *.
+    cbn [cp_apply_tree].
+    specialize (IHl c G (fun x Hx => Hin x (in_or_app _ _ _ (or_introl Hx))) (NoDup_app_l _ _ ND)).
+    destruct (cp_apply_tree wh l c) as [c1 i] eqn:E1. cbn [fst snd] in IHl. destruct IHl as (G1 & Hi1 & Hio & Hs1 & Hp1).
+    assert (Hr_in : forall x, In x (tids wh r) -> In x (keys c1)).
+    { intros x Hx. apply Hp1; [apply Hin, in_or_app; now right|]. intros Hc. eapply NoDup_app_disjoint; eassumption. }
+    specialize (IHr c1 G1 Hr_in (NoDup_app_r _ _ ND)).
+    destruct (cp_apply_tree wh r c1) as [c2 j] eqn:E2. cbn [fst snd] in IHr. destruct IHr as (G2 & Hj2 & Hjo & Hs2 & Hp2).
+    assert (Hlt : forall x, In x (tids wh r) -> x < cp_ssa c) by (intros x Hx; apply G; apply Hin, in_or_app; now right).
+    assert (Hi_nr : ~ In i (tids wh r)).
+    { intros Hc. destruct Hio as [Hio|Hio]; [eapply NoDup_app_disjoint; eassumption|]. apply Hlt in Hc. lia. }
+    assert (Hi2 : In i (keys c2)) by (apply Hp2; assumption).
+    assert (Hij : i <> j).
+    { intros ->. destruct Hjo as [Hjo|Hjo]; [contradiction|]. apply G1 in Hi1. lia. }
+    destruct (contract_nodes_good i j None c2 G2 Hi2 Hj2 Hij) as (G3 & Hk & Hs3 & Hr3 & _).
+    destruct (contract_nodes i j None c2) as [c3 k] eqn:E3. cbn [fst snd] in *. subst k.
+    split; [exact G3|]. split; [rewrite Hk; apply in_or_app; right; now left|]. split; [right; lia|]. split; [lia|].
+    intros x Hx Hn. rewrite Hk. apply in_or_app. left. apply remove_all_in.
+    assert (Hxl : ~ In x (tids wh l)) by (intros Hc; apply Hn, in_or_app; now left).
+    assert (Hxr : ~ In x (tids wh r)) by (intros Hc; apply Hn, in_or_app; now right).
+    split; [apply Hp2; [apply Hp1; assumption|assumption]|].
+    assert (Hxs : x < cp_ssa c) by (now apply G).
+    intros [->|[->|[]]].
+    + destruct Hio as [Hio|Hio]; [contradiction|lia].
+    + destruct Hjo as [Hjo|Hjo]; [contradiction|lia].
+Qed.
+
+Definition comps_ok (c : cproc) (comps : list (list nat * tree)) : Prop :=
+  NoDup (concat (map fst comps)) /\ incl (concat (map fst comps)) (keys c) /\
+  forall wh t, In (wh, t) comps -> Permutation (leaves t) (seq 0 (length wh)).
+
+Lemma tids_perm wh t : Permutation (leaves t) (seq 0 (length wh)) -> Permutation (tids wh t) wh.
+Proof.
+  intros P. unfold tids. eapply perm_trans; [apply Permutation_map; exact P|].
+  assert (E : map (fun p => nth p wh 0) (seq 0 (length wh)) = wh).
+  { clear. induction wh as [|x wh IH]; [reflexivity|]. cbn [length seq map nth]. f_equal.
+    rewrite <- seq_shift, map_map. exact IH. }
+  rewrite E. apply Permutation_refl.
+Qed.
+
+Lemma cp_optimal_good : forall comps c, Good c -> comps_ok c comps -> Good (cp_optimal comps c).
+Proof.
+  unfold cp_optimal. induction comps as [|[wh t] comps IH]; intros c G (ND & Hincl & Ht); cbn [fold_left]; [assumption|].
+  cbn [map fst concat] in ND, Hincl.
+  pose proof (tids_perm wh t (Ht wh t (or_introl eq_refl))) as Pt.
+  destruct (apply_tree_good wh t c G) as (G1 & _ & _ & _ & Hp).
+  - intros x Hx. apply Hincl, in_or_app. left. eapply Permutation_in; eassumption.
+  - eapply Permutation_NoDup; [apply Permutation_sym; exact Pt|]. now apply NoDup_app_l in ND.
+  - cbn [fst snd]. apply IH; [exact G1|]. split; [now apply NoDup_app_r in ND|]. split.
+    + intros x Hx. apply Hp; [apply Hincl, in_or_app; now right|].
+      intros Hc. eapply (NoDup_app_disjoint _ _ ND x); [eapply Permutation_in; eassumption|assumption].
+    + intros wh' t' Hin. apply Ht. now right.
+Qed.
+
+Lemma cp_optimal_Ref : forall comps c, Ref c (cp_optimal comps c).
+Proof.
+  unfold cp_optimal. induction comps as [|[wh t] comps IH]; intros c; cbn [fold_left]; [apply Ref_refl|].
+  eapply Ref_trans; [apply apply_tree_Ref|apply IH].
+Qed.
+
+(* optimal pipeline: simplify; optimize_optimal on the components (DP = oracle returning a tree
+   over all positions of its component); leftovers by size *)
+Theorem optimal_pipeline_valid inputs output sizes orders comps (simp : bool) : inputs <> [] -> orders_ok orders ->
+  let n := length inputs in
+  let c0 := cp_init inputs output sizes in
+  let c1 := if simp then cp_simplify orders c0 else c0 in
+  comps_ok c1 comps ->
+  let c' := cp_remaining (cp_optimal comps c1) in
+  cp_ok c' = true /\ length (cp_nodes c') = 1 /\ ssa_path_valid n (cp_path c') = true /\
+  exists q, ssa_to_linear n (cp_path c') = Some q /\ linear_path_valid n q = true.
+Proof.
+  intros Hne Ho n c0 c1 Hc c'. destruct (cp_init_good inputs output sizes Hne) as [G0 Hi].
+  assert (G1 : Good c1) by (unfold c1; destruct simp; [now apply cp_simplify_good|exact G0]).
+  destruct (cp_remaining_good _ (cp_optimal_good comps c1 G1 Hc)) as [G L]. fold c' in G, L.
+  assert (R : Ref c0 c').
+  { eapply Ref_trans; [|eapply Ref_trans; [apply cp_optimal_Ref|apply cp_remaining_Ref]].
+    unfold c1. destruct simp; [apply cp_simplify_Ref|apply Ref_refl]. }
+  pose proof (Ref_valid n c0 c' Hi R (proj1 G)) as V.
+  assert (Vb : ssa_path_valid n (cp_path c') = true).
+  { unfold ssa_path_valid. rewrite V. unfold keys. now rewrite map_length, L. }
+  split; [apply G|]. split; [exact L|]. split; [exact Vb|]. now apply ssa_to_linear_complete.
+Qed.
